@@ -663,7 +663,7 @@ theorem float_log10_undershoot_witness :
     decDigits (10 ^ 15) = 16 ∧ (∀ t, RepsOH (slackLog10By 15 (10 ^ 15)) t → t < 10 ^ 15) ∧
     (∀ t, t ≤ 10 ^ 15 → RepsOH (slackLog10By 16 (10 ^ 15)) t) := by
   have hd : decDigits (10 ^ 15) = 16 :=
-    digits_unique (10 ^ 15) _ 16 (decDigits_spec (10 ^ 15) (by decide)) ⟨by decide, by decide⟩ (decDigits_pos _) (by decide)
+    decDigits_unique (10 ^ 15) _ 16 (decDigits_spec (10 ^ 15) (by decide)) ⟨by decide, by decide⟩ (decDigits_pos _) (by decide)
   refine ⟨hd, fun t ht => (log10_count_characterised 15 (10 ^ 15)).2 (by decide) t ht, fun t ht => ?_⟩
   exact (log10_count_characterised 16 (10 ^ 15)).1 (by rw [clog10_eq_decDigits _ (by decide), hd]) t ht
 
